@@ -9,22 +9,22 @@ open Spec
 theorem pageStart_script (sv : Saved) (cs : List RCtl) (s : Stream) (l : List Recv) (ps : List Page)
     (hq : sv.q.filterOk = true) (hp : s.pages = .script l :: ps) :
     ∃ s2, pageStart sv cs s = (s2, .ok) ∧ s2.state = s.state ∧ s2.rx = some l ∧ s2.pages = ps ∧
-      s2.reqs = s.reqs ++ [⟨some cs, sv.h.opts, sv.h.tmo, sv.q, true⟩] ∧ s2.res = s.res ∧ s2.scrubs = s.scrubs := by
-  refine ⟨{ s with h := {}, rx := some l, pages := ps, reqs := s.reqs ++ [⟨some cs, sv.h.opts, sv.h.tmo, sv.q, true⟩] }, ?_, rfl, rfl, rfl, rfl, rfl, rfl⟩
+      s2.reqs = s.reqs ++ [⟨some cs, sv.h.opts, sv.h.tmo, sv.q, true⟩] ∧ s2.res = none ∧ s2.scrubs = s.scrubs := by
+  refine ⟨{ s with h := {}, rx := some l, res := none, pages := ps, reqs := s.reqs ++ [⟨some cs, sv.h.opts, sv.h.tmo, sv.q, true⟩] }, ?_, rfl, rfl, rfl, rfl, rfl, rfl⟩
   simp [pageStart, start, startInner, hq, hp, errState]
 
 theorem pageStart_nil (sv : Saved) (cs : List RCtl) (s : Stream)
     (hq : sv.q.filterOk = true) (hp : s.pages = []) :
     ∃ s2, pageStart sv cs s = (s2, .ok) ∧ s2.state = s.state ∧ s2.rx = some [] ∧ s2.pages = [] ∧
-      s2.reqs = s.reqs ++ [⟨some cs, sv.h.opts, sv.h.tmo, sv.q, true⟩] ∧ s2.res = s.res ∧ s2.scrubs = s.scrubs := by
-  refine ⟨{ s with h := {}, rx := some [], pages := [], reqs := s.reqs ++ [⟨some cs, sv.h.opts, sv.h.tmo, sv.q, true⟩] }, ?_, rfl, rfl, rfl, rfl, rfl, rfl⟩
+      s2.reqs = s.reqs ++ [⟨some cs, sv.h.opts, sv.h.tmo, sv.q, true⟩] ∧ s2.res = none ∧ s2.scrubs = s.scrubs := by
+  refine ⟨{ s with h := {}, rx := some [], res := none, pages := [], reqs := s.reqs ++ [⟨some cs, sv.h.opts, sv.h.tmo, sv.q, true⟩] }, ?_, rfl, rfl, rfl, rfl, rfl, rfl⟩
   simp [pageStart, start, startInner, hq, hp, errState]
 
 theorem pageStart_fail (sv : Saved) (cs : List RCtl) (s : Stream) (e : Err) (ps : List Page)
     (hq : sv.q.filterOk = true) (hp : s.pages = .fail e :: ps) :
     ∃ s2, pageStart sv cs s = (s2, .err e) ∧ s2.state = s.state ∧ s2.rx = s.rx ∧ s2.pages = ps ∧
-      s2.reqs = s.reqs ++ [⟨some cs, sv.h.opts, sv.h.tmo, sv.q, false⟩] ∧ s2.res = s.res ∧ s2.scrubs = s.scrubs := by
-  refine ⟨{ s with pages := ps, reqs := s.reqs ++ [⟨some cs, sv.h.opts, sv.h.tmo, sv.q, false⟩] }, ?_, rfl, rfl, rfl, rfl, rfl, rfl⟩
+      s2.reqs = s.reqs ++ [⟨some cs, sv.h.opts, sv.h.tmo, sv.q, false⟩] ∧ s2.res = none ∧ s2.scrubs = s.scrubs := by
+  refine ⟨{ s with res := none, pages := ps, reqs := s.reqs ++ [⟨some cs, sv.h.opts, sv.h.tmo, sv.q, false⟩] }, ?_, rfl, rfl, rfl, rfl, rfl, rfl⟩
   simp [pageStart, start, startInner, hq, hp, errState]
 
 /-- what one `PagedResults::next` must deliver, given the paged view from inside page `l` with `ps` pending -/
